@@ -6,7 +6,7 @@ COMMON_TB = [
     "Go harness: exact float<->rational encoding, generators, recover-based panic mapping",
     "correspondence is sampled: code = model only on the generated cases",
     "IEEE rounding of the Go code is not modelled (exact rational model + stated tolerance)",
-    "go/ast fact extractor (constants, literals of curated functions, package-level variables and their writers, struct fields): regenerated on every run and compared with what the model accounts for by kernel-evaluated theorems facts_Cxx / state_Cxx",
+    "go/ast fact extractor (constants, literals of curated functions, package-level variables, their writers and readers, struct fields, function lists with receiver kinds, writes through parameters): regenerated on every run and compared with what the model accounts for by kernel-evaluated theorems facts_Cxx / state_Cxx",
 ]
 
 META = {}
